@@ -495,3 +495,129 @@ func sortStrings(s []string) {
 }
 
 func init() { register("C09", Rule{"R09d", rulePatternKindDiscrimination}) }
+
+// R09e: `...rest` is bound to what is left after *all* explicit components were taken.  A composite pattern walks
+// its components and removes each matched one from a running remainder.  Binding the rest pattern inside that walk,
+// with the running remainder as it stands, makes the capture depend on where `...rest` was written: components that
+// follow it are still in it.  Array, tuple and set patterns bind the rest after the walk; a Bind of an
+// ExtraElementPattern component inside the walk, fed from the loop-carried remainder, is a violation.
+func ruleRestBoundAfterWalk(p *Program, r *Report) {
+	r.Begin("R09e", "rest after the walk: in the Bind method of a composite pattern, no sub-pattern Bind that sits on the is-ExtraElementPattern branch inside the loop over the pattern's components takes a value derived from a loop-carried remainder of that loop — `...rest` captures precisely the unmatched remainder only if every explicit component, also those written after it, has been removed first", 3)
+	defer r.End()
+	pat := p.NamedType("rel", "Pattern")
+	if pat == nil {
+		r.Undecided("anchor", "rel.Pattern not found", 0)
+		return
+	}
+	it := pat.Underlying().(*types.Interface)
+	n := 0
+	for _, fn := range p.RepoFns {
+		if fn.Parent() != nil || fn.Name() != "Bind" || fn.Signature.Recv() == nil || fn.Synthetic != "" {
+			continue
+		}
+		rt := fn.Signature.Recv().Type()
+		if !(types.Implements(rt, it) || types.Implements(types.NewPointer(rt), it)) {
+			continue
+		}
+		var binds []*ssa.Call
+		ForEachInstr(fn, func(ins ssa.Instruction) {
+			c, ok := ins.(*ssa.Call)
+			if !ok {
+				return
+			}
+			name := ""
+			if c.Call.IsInvoke() {
+				name = c.Call.Method.Name()
+			} else if g := c.Call.StaticCallee(); g != nil {
+				name = g.Name()
+			}
+			if name == "Bind" {
+				binds = append(binds, c)
+			}
+		})
+		if len(binds) == 0 {
+			continue
+		}
+		n++
+		r.Fn(FnName(fn))
+		bad := false
+		// blocks that are exclusively on the rest branch: dominated by the true successor of an
+		// is-ExtraElementPattern test
+		var restHeads []*ssa.BasicBlock
+		for _, blk := range fn.Blocks {
+			cond := IfCond(blk)
+			if cond == nil {
+				continue
+			}
+			if DependsOn(cond, func(x ssa.Value) bool {
+				ta, ok := x.(*ssa.TypeAssert)
+				return ok && strings.HasSuffix(ta.AssertedType.String(), "ExtraElementPattern")
+			}) && len(blk.Succs[0].Preds) == 1 {
+				restHeads = append(restHeads, blk.Succs[0])
+			}
+		}
+		onRest := func(blk *ssa.BasicBlock) bool {
+			for _, h := range restHeads {
+				if h == blk || h.Dominates(blk) {
+					return true
+				}
+			}
+			return false
+		}
+		loopState := func(v ssa.Value, at *ssa.BasicBlock) bool {
+			return DependsOn(v, func(x ssa.Value) bool {
+				ph, ok := x.(*ssa.Phi)
+				if !ok {
+					return false
+				}
+				// the remainder is a collection (set, map, frozen map …); positions and counters of ordered
+				// patterns (arrays) are not remainders
+				if bt, isBasic := ph.Type().Underlying().(*types.Basic); isBasic && bt.Info()&(types.IsNumeric|types.IsBoolean|types.IsString) != 0 {
+					return false
+				}
+				if strings.HasSuffix(ph.Type().String(), "rel.Value") || strings.HasSuffix(ph.Type().String(), "rel.Scope") || strings.HasSuffix(ph.Type().String(), "context.Context") {
+					return false // the value being bound / the accumulated bindings, not a remainder
+				}
+				// loop-carried: the phi sits at a loop header (one of its edges is a back edge) of a loop containing the call
+				header := false
+				for _, pr := range ph.Block().Preds {
+					if ph.Block().Dominates(pr) {
+						header = true
+					}
+				}
+				return header && Reaches(ph.Block(), at, false) && Reaches(at, ph.Block(), false)
+			})
+		}
+		for _, c := range binds {
+			if !Reaches(c.Block(), c.Block(), false) {
+				continue // not inside a loop
+			}
+			val := c.Call.Args[len(c.Call.Args)-1]
+			type cand struct {
+				v   ssa.Value
+				blk *ssa.BasicBlock
+			}
+			cands := []cand{{val, c.Block()}}
+			if ph, isPhi := val.(*ssa.Phi); isPhi {
+				cands = nil
+				for i, e := range ph.Edges {
+					cands = append(cands, cand{e, ph.Block().Preds[i]})
+				}
+			}
+			for _, cd := range cands {
+				if onRest(cd.blk) && loopState(cd.v, c.Block()) {
+					bad = true
+					r.Viol("rest@"+FnName(fn), fmt.Sprintf("%s binds its `...rest` component inside the walk over the pattern's components, from the remainder as it stands at that point: components written after `...rest` are still part of what it captures (`let {...t, k: x} = …` binds t to the whole value)", FnName(fn)), c.Pos())
+				}
+			}
+		}
+		if !bad {
+			r.OK("rest@"+FnName(fn), "no rest binding inside the walk from the running remainder", fn.Pos())
+		}
+	}
+	if n == 0 {
+		r.Undecided("sites", "no composite pattern Bind method found", 0)
+	}
+}
+
+func init() { register("C09", Rule{"R09e", ruleRestBoundAfterWalk}) }
